@@ -141,9 +141,12 @@ class Builder:
         """A region (expression) roughly centred in a frame of half-size
         ``scale``; draws fresh surfaces."""
         d = self.draw
-        kind = d(st.sampled_from(['sph', 'sph', 'cyl', 'slab', 'half',
-                                  'box', 'cone', 'half2', 'macro',
-                                  'facet']))
+        kinds = ['sph', 'sph', 'cyl', 'slab', 'half', 'box', 'cone', 'half2',
+                 'macro', 'facet']
+        if self.opts.get('facet_bias'):
+            # decks made of macrobodies and their facets, on every level
+            kinds = ['box', 'box', 'macro', 'facet', 'facet', 'sph']
+        kind = d(st.sampled_from(kinds))
         if kind == 'facet':
             # a macrobody referenced through its facets; an existing body of
             # this deck is reused when possible, so that one body is referenced
@@ -284,11 +287,24 @@ class Builder:
         regions = [self.region(scale) for _ in range(n)]
         shared = getattr(self, 'container_leaves', None)
         self.container_leaves = None
-        if shared and d(st.integers(0, 2)) == 0:
+        if shared and d(st.integers(0, 2)) <= (
+                1 if self.opts.get('facet_bias') else 0):
             k = d(st.integers(0, n - 1))
             leaf = d(st.sampled_from(shared))
+            body = [s_ for s_ in self.deck['surfaces']
+                    if s_['id'] == abs(leaf[1])]
+            if body and body[0]['kind'].lower() in ('rpp', 'box', 'rcc',
+                                                    'wed', 'rhp', 'hex') \
+                    and d(st.booleans()):
+                # the container is bounded by a macrobody (or one of its
+                # facets): the filler is cut by another facet of that body
+                from . import mgeom
+                nf = mgeom.n_facets(body[0]['kind'], body[0]['params'])
+                leaf = md.F(leaf[1], d(st.integers(1, nf)))
+                self.labels.add('filler-cut-by-other-facet-of-container-body')
             if d(st.integers(0, 3)) == 0:
                 leaf = gen.push_not(leaf, True)      # the other side
+            self.shared_used = True
             regions[k] = md.AND(regions[k], leaf) if regions[k][0] != '&' \
                 else list(regions[k]) + [leaf]
             self.labels.add('filler-shares-container-surface')
@@ -334,10 +350,18 @@ class Builder:
                 # the cells of the filling universe may be bounded by a
                 # surface that also bounds the container (same number)
                 self.container_leaves = _signed_leaves(expr)
+                self.shared_used = False
                 sub = self.universe(depth - 1, scale * 0.8)
                 self.container_leaves = None
             fill = {'u': sub, 'tr': None if self.opts.get('no_fill_tr')
                     else self.transform_ref(scale)}
+            if getattr(self, 'shared_used', False):
+                self.shared_used = False
+                if d(st.booleans()):
+                    # the shared surface is the same surface on both levels
+                    # only when the universe is not moved
+                    fill['tr'] = None
+                    self.labels.add('shared-surface-unmoved-universe')
             if d(st.integers(0, 3)) == 0:
                 trcl = self.transform_ref(scale, allow_none=False)
                 self.labels.add('container-trcl')
@@ -470,6 +494,7 @@ class Builder:
 
     def _finish_lattice(self, u, expr, pitches, ndim, force):
         d = self.draw
+        expr = regroup(d, self.labels, expr)
         # sub-universes
         n_sub = d(st.integers(1, 2))
         subs = [self.universe(-1, min(pitches) * 0.9, allow_lattice=False)
@@ -620,6 +645,31 @@ def _shrink_body(kind, p, scale):
     return [v * f for v in q]
 
 
+def regroup(d, labels, expr):
+    """Parentheses around runs of consecutive surfaces of a lattice cell
+    card, ``-2 1 (-4 3)``: an intersection is associative and the order of the
+    surfaces on the card, which defines the lattice axes, is unchanged."""
+    if expr[0] != '&' or len(expr) < 4 or d(st.integers(0, 3)) != 0:
+        return expr
+    leaves = list(expr[1:])
+    out = []
+    q = 0
+    grouped = False
+    while q < len(leaves):
+        n = d(st.integers(1, 3))
+        grp = leaves[q:q + n]
+        if len(grp) >= 2 and d(st.integers(0, 2)) != 0:
+            out.append(md.AND(*grp))
+            grouped = True
+        else:
+            out.extend(grp)
+        q += n
+    if not grouped:
+        return expr
+    labels.add('lat:parenthesised-groups')
+    return md.AND(*out) if len(out) > 1 else out[0]
+
+
 def _signed_leaves(expr):
     if expr is None:
         return []
@@ -696,6 +746,75 @@ def periodic_case(draw, tier='quick'):
     b.labels.add('periodic-setting')
     return {'deck': b.deck, 'labels': sorted(b.labels), 'tier': tier,
             'box': W * 1.15, 'pseed': draw(st.integers(0, 2 ** 31 - 1))}
+
+
+@st.composite
+def facet_fill_case(draw, tier='quick'):
+    """A container bounded by ONE facet of a macrobody (or by the whole
+    body), filled - mostly without any transformation - with a universe whose
+    cells are cut by facets of the same body: b.1, b.3 and b are three
+    different things with one surface number."""
+    from . import mgeom
+    b = Builder(draw, tier, {'lattice': False})
+    d = draw
+    b.labels.add('facet-fill')
+    mk = d(st.sampled_from(['rpp', 'rpp', 'box', 'rcc', 'wed', 'rhp9']))
+    k_, p_, _lab = d(gen.macro_params(mk))
+    p_ = _shrink_body(k_, p_, 4.0)
+    bid = b.add_surf(k_, p_)
+    nf = mgeom.n_facets(k_, p_)
+    world = b.add_surf('so', [6.0])
+    u = b.new_uid()
+
+    def cut():
+        how = d(st.sampled_from(['facet', 'facet', 'facet', 'body']))
+        sg = d(st.sampled_from([1, -1]))
+        if how == 'body':
+            return md.S(sg * bid)
+        return md.F(sg * bid, d(st.integers(1, nf)))
+    bound = cut()
+    if d(st.integers(0, 3)) == 0:
+        bound = md.F(bound[1], d(st.integers(1, nf)))
+    b.labels.add('facet-fill:container-' + ('facet' if bound[0] == 'f'
+                                            else 'body'))
+    inner = cut()
+    if d(st.booleans()):
+        # same sense as the bound of the container
+        inner = [inner[0], abs(inner[1]) * (1 if bound[1] > 0 else -1)] \
+            + list(inner[2:])
+    if inner[0] == 'f' and bound[0] == 'f' and inner[2] != bound[2]:
+        b.labels.add('facet-fill:two-facets-of-one-body')
+    ma, mb, mc = b.material(), b.material(), b.material()
+    extra = []
+    if d(st.integers(0, 2)) == 0:
+        extra = [md.S(d(st.sampled_from([1, -1]))
+                      * b.add_surf(d(st.sampled_from(['px', 'py', 'pz'])),
+                                   [d(gen.coord(1.0))]))]
+    ua = [md.S(-world), inner] + extra
+    if d(st.booleans()):
+        ua = ua[::-1]
+    cells_u = [md.cell(b.new_cid(), ma[0], ma[1], md.AND(*ua), imp={'n': 1},
+                       u=u),
+               md.cell(b.new_cid(), mb[0], mb[1],
+                       md.AND(md.S(-world), gen.push_not(md.AND(
+                           inner, *extra), True)), imp={'n': 1}, u=u),
+               md.cell(b.new_cid(), 0, None, md.S(world), imp={'n': 1}, u=u)]
+    tr = None
+    if d(st.integers(0, 3)) == 0:
+        tr = b.transform_ref(3.0)
+    cont = md.cell(b.new_cid(), 0, None, bound, imp={'n': 1},
+                   fill={'u': u, 'tr': tr})
+    other = gen.push_not(bound, True)
+    rest = md.cell(b.new_cid(), mc[0], mc[1], md.AND(other, md.S(-world)),
+                   imp={'n': 1})
+    gy = md.cell(b.new_cid(), 0, None, md.AND(other, md.S(world)),
+                 imp={'n': 0})
+    cards = cells_u + [cont, rest, gy]
+    if d(st.booleans()):
+        cards = [cards[o] for o in d(st.permutations(list(range(len(cards)))))]
+    b.deck['cells'] = cards
+    return {'deck': b.deck, 'labels': sorted(b.labels), 'tier': tier,
+            'box': 6.9, 'pseed': draw(st.integers(0, 2 ** 31 - 1))}
 
 
 @st.composite
@@ -830,6 +949,20 @@ def neg_universe_case(draw, tier='quick'):
 def _hex_vertices(draw, regular):
     r = draw(gen.length(0.5, 1.2))
     th0 = math.radians(draw(st.integers(0, 359)))
+    if not regular and draw(st.integers(0, 3)) == 0:
+        # a flattened hexagon ("staggered bricks"): a rectangle 2w x 2h whose
+        # short sides are broken outwards by bulge * h; the two halves of a
+        # broken side are adjacent sides that are nearly collinear
+        w_ = r * draw(st.sampled_from([0.7, 1.0, 1.4]))
+        h_ = r * draw(st.sampled_from([0.5, 0.8, 1.0]))
+        bulge = draw(st.sampled_from([0.015, 0.02, 0.05, 0.1, 0.3]))
+        base = [np.array([w_, -h_]), np.array([w_ + bulge * h_, 0.0]),
+                np.array([w_, h_])]
+        shift = draw(st.integers(0, 2))
+        ringf = base + [-v for v in base]
+        c_, s_ = math.cos(th0), math.sin(th0)
+        return [np.array([c_ * v[0] - s_ * v[1], s_ * v[0] + c_ * v[1]])
+                for v in ringf[shift:shift + 3]]
     if regular:
         ang = [th0 + k * math.pi / 3 for k in range(3)]
         rad = [r, r, r]
@@ -861,6 +994,14 @@ def hex_lattice_universe(b, u, scale, force=None):
         regular = True
         vs = _hex_vertices(d, True)
     b.labels.add('hex:regular' if regular else 'hex:irregular')
+    ring_ = vs + [-v for v in vs]
+    for k in range(6):
+        ea = ring_[(k + 1) % 6] - ring_[k]
+        eb = ring_[(k + 2) % 6] - ring_[(k + 1) % 6]
+        cosang = float(ea @ eb) / float(np.linalg.norm(ea)
+                                        * np.linalg.norm(eb))
+        if cosang > math.cos(math.radians(8.0)):
+            b.labels.add('hex:nearly-collinear-adjacent-sides')
     cls, R = d(gen.rotation(('identity', 'generic', 'axis', 'perm', 'flip')))
     R = np.array(R).reshape(3, 3)
     if cls != 'identity':
@@ -942,6 +1083,7 @@ def hex_lattice_universe(b, u, scale, force=None):
 
 def _finish_hex(b, u, force, expr, three_d, a1, a2, a3, w, centre):
     d = b.draw
+    expr = regroup(d, b.labels, expr)
     ndim = 3 if three_d else 2
     size_scale = float(min(np.linalg.norm(a1), np.linalg.norm(a2))) * 0.45
     n_sub = d(st.integers(1, 2))
